@@ -40,7 +40,7 @@ class IdentityDatabase(Database):
     This database does not store: commitments and schemes for proving knowledge of data.
     """
 
-    LATEST_DB_VERSION = 1
+    LATEST_DB_VERSION = 2
 
     def insert_token(self, public_key: PublicKey, token: Token) -> None:
         """
@@ -180,7 +180,7 @@ class IdentityDatabase(Database):
                  metadata_pointer BLOB,
                  signature BLOB,
 
-                 PRIMARY KEY (public_key, metadata_pointer)
+                 PRIMARY KEY (public_key, authority_key, metadata_pointer)
                  );
 
                  CREATE TABLE IF NOT EXISTS option(key TEXT PRIMARY KEY, value BLOB);
@@ -197,8 +197,18 @@ class IdentityDatabase(Database):
         assert int(database_version) >= 0
         database_version_num = int(database_version) or self.LATEST_DB_VERSION
 
-        # This is where an existing schema would be upgraded.
-        # As no changes have been made, there is nothing to upgrade.
+        if database_version_num == 1:
+            # Version 1 keyed Attestations on (public_key, metadata_pointer): it could hold only one attestation
+            # per metadata entry and silently dropped those of every other authority. Rebuild it with the new key,
+            # in a single transaction: an interrupted upgrade leaves the version 1 file untouched.
+            self.executescript("BEGIN;\n"
+                               "ALTER TABLE Attestations RENAME TO Attestations_v1;\n"
+                               + self.get_schema(self.LATEST_DB_VERSION) +
+                               "INSERT OR IGNORE INTO Attestations "
+                               "SELECT public_key, authority_key, metadata_pointer, signature FROM Attestations_v1;\n"
+                               "DROP TABLE Attestations_v1;\n"
+                               "COMMIT;\n")
+            database_version_num = self.LATEST_DB_VERSION
 
         self.executescript(self.get_schema(database_version_num))
         self.commit()
